@@ -65,7 +65,7 @@ func cases(tier string, seed int64) []fw.Case {
 	fams := pureFamilies()
 	k := int64(0)
 	// in-situ histories first (they take longest)
-	nSitu := 16
+	nSitu := 40
 	if thorough {
 		nSitu = 150
 	}
